@@ -27,15 +27,12 @@ theorem mem_append_cons_iff (P Q : List Nat) (n : Nat) : 0 ∉ P ++ n :: Q ↔ (
   · rintro ⟨h1, h2, h3⟩; exact ⟨h1, fun e => h2 e.symm, h3⟩
 
 /-- **`split_axis` followed by flattening**: the flat buffer holds the input with the axis moved to the front -/
-theorem splitAxis_flat (a : Arr α) (zero : α) (na : Nat) (P Q : List Nat) (hwf : a.WF) (hs : a.shape = P ++ na :: Q)
-    (hP : 0 ∉ P) (hQ : 0 ∉ Q) :
+theorem splitAxis_flat (a : Arr α) (zero : α) (na : Nat) (P Q : List Nat) (hwf : a.WF) (hs : a.shape = P ++ na :: Q) :
     ∃ pieces, a.splitAxis zero P.length = .ok pieces ∧
       (pieces.flatMap (·.elems)).length = na * (P.prod * Q.prod) ∧
       ∀ p q i, inRange P p = true → inRange Q q = true → i < na →
         (pieces.flatMap (·.elems))[(i * P.prod + ravel P p) * Q.prod + ravel Q q]? = a.get? (p ++ i :: q) := by
   have hnd : a.ndim = P.length + Q.length + 1 := by simp [Arr.ndim, hs]; omega
-  have hPp := prod_pos_of_not_mem P hP
-  have hQp := prod_pos_of_not_mem Q hQ
   have hL : a.elems.length = na * (P.prod * Q.prod) := by
     rw [hwf, hs]; simp only [List.prod_append, List.prod_cons]
     rw [Nat.mul_left_comm]
@@ -48,14 +45,9 @@ theorem splitAxis_flat (a : Arr α) (zero : α) (na : Nat) (P Q : List Nat) (hwf
     simp only [List.flatMap_cons, List.flatMap_nil, List.append_nil, Arr.get?, hs]
     rw [ravel_mid _ _ _ _ _ _ (inRange_length _ _ hp).symm]
     rcases Bool.or_eq_true _ _ ▸ he with h | h
-    · -- empty: no position
+    · -- empty: no position on either side
       simp only [Arr.isEmpty, beq_iff_eq] at h
-      rw [hL] at h
-      have : na = 0 := by
-        rcases Nat.mul_eq_zero.1 h with h | h
-        · exact h
-        · have := Nat.mul_pos hPp hQp; omega
-      omega
+      rw [List.getElem?_eq_none (by omega), List.getElem?_eq_none (by omega)]
     · -- rank 1
       simp only [beq_iff_eq] at h
       have hP0 : P = [] := List.eq_nil_of_length_eq_zero (by omega)
@@ -68,7 +60,10 @@ theorem splitAxis_flat (a : Arr α) (zero : α) (na : Nat) (P Q : List Nat) (hwf
       rcases Nat.eq_zero_or_pos na with h | h
       · exfalso; apply he.1; simp [Arr.isEmpty, hL, h]
       · exact h
-    have hnz : 0 ∉ a.shape := by rw [hs, mem_append_cons_iff]; exact ⟨hP, by omega, hQ⟩
+    have hnz : 0 ∉ a.shape := by
+      intro hm
+      apply he.1
+      simp [Arr.isEmpty, show a.elems.length = a.shape.prod from hwf, prod_eq_zero_of_mem _ hm]
     have hidx : Res.idx a.shape P.length = .ok na := by simp [Res.idx, hs]
     obtain ⟨pieces, h1, h2, h3⟩ := arraySplit_cut a zero na na P Q hwf hs hnz hna
     rw [sectionSizes_self na hna] at h3
@@ -108,17 +103,14 @@ theorem listSwap_tmp (P Q : List Nat) (N : Nat) :
 
 /-- **`append` along axis `k = P.length`** of shapes `P ++ na :: Q` and `P ++ nv :: Q` -/
 theorem appendAxis_cut (a v : Arr α) (zero : α) (na nv : Nat) (P Q : List Nat) (hwa : a.WF) (hwv : v.WF)
-    (hsa : a.shape = P ++ na :: Q) (hsv : v.shape = P ++ nv :: Q) (hP : 0 ∉ P) (hQ : 0 ∉ Q) :
+    (hsa : a.shape = P ++ na :: Q) (hsv : v.shape = P ++ nv :: Q) :
     ∃ r, a.appendAxis v zero P.length = .ok r ∧ r.shape = P ++ (na + nv) :: Q ∧ r.WF ∧
       (∀ p q j, inRange P p = true → inRange Q q = true → j < na → r.get? (p ++ j :: q) = a.get? (p ++ j :: q)) ∧
       (∀ p q j, inRange P p = true → inRange Q q = true → j < nv → r.get? (p ++ (na + j) :: q) = v.get? (p ++ j :: q)) := by
   have hnda : a.ndim = P.length + Q.length + 1 := by simp [Arr.ndim, hsa]; omega
   have hndv : v.ndim = P.length + Q.length + 1 := by simp [Arr.ndim, hsv]; omega
-  have hPp := prod_pos_of_not_mem P hP
-  have hQp := prod_pos_of_not_mem Q hQ
-  have hPQ : 0 < P.prod * Q.prod := Nat.mul_pos hPp hQp
-  obtain ⟨pa, ha1, ha2, ha3⟩ := splitAxis_flat a zero na P Q hwa hsa hP hQ
-  obtain ⟨pv, hv1, hv2, hv3⟩ := splitAxis_flat v zero nv P Q hwv hsv hP hQ
+  obtain ⟨pa, ha1, ha2, ha3⟩ := splitAxis_flat a zero na P Q hwa hsa
+  obtain ⟨pv, hv1, hv2, hv3⟩ := splitAxis_flat v zero nv P Q hwv hsv
   generalize hFa : pa.flatMap (·.elems) = Fa at *
   generalize hFv : pv.flatMap (·.elems) = Fv at *
   have hF : (pa ++ pv).flatMap (·.elems) = Fa ++ Fv := by rw [List.flatMap_append, hFa, hFv]
@@ -127,8 +119,8 @@ theorem appendAxis_cut (a v : Arr α) (zero : α) (na nv : Nat) (P Q : List Nat)
     simp only [vecRemove, hsa, eraseIdx_mid]; rw [if_neg (by simp)]
   have hrv : vecRemove v.shape P.length = .ok (P ++ Q) := by
     simp only [vecRemove, hsv, eraseIdx_mid]; rw [if_neg (by simp)]
-  have hdiv : (Fa ++ Fv).length / (P ++ Q).prod = na + nv := by
-    rw [hFl, List.prod_append, Nat.mul_div_cancel _ hPQ]
+  have hia : Res.idx a.shape P.length = .ok na := by simp [Res.idx, hsa]
+  have hiv : Res.idx v.shape P.length = .ok nv := by simp [Res.idx, hsv]
   obtain ⟨P', hsw, hP'l, hP'p⟩ := listSwap_tmp P Q (na + nv)
   -- the chained buffer under the temporary shape
   let t : Arr α := ⟨Fa ++ Fv, (na + nv) :: P' ++ Q⟩
@@ -162,9 +154,8 @@ theorem appendAxis_cut (a v : Arr α) (zero : α) (na nv : Nat) (P Q : List Nat)
   refine ⟨⟨r.elems, P ++ (na + nv) :: Q⟩, ?_, rfl, ?_, ?_, ?_⟩
   · unfold Arr.appendAxis
     rw [if_neg (by omega), if_neg (by omega)]
-    simp only [hra, hrv, Res.bind_ok, ne_eq, not_true_eq_false, if_false, ha1, hv1, hF]
-    rw [if_neg (by rw [List.prod_append]; omega)]
-    simp only [Arr.len, Arr.flat, hdiv, hsa, set_mid, hsw]
+    simp only [hra, hrv, Res.bind_ok, ne_eq, not_true_eq_false, if_false, ha1, hv1, hia, hiv, hF]
+    simp only [Arr.flat, hsa, set_mid, hsw]
     have hre : Arr.reshape (⟨Fa ++ Fv, [(Fa ++ Fv).length]⟩ : Arr α) ((na + nv) :: P' ++ Q) = .ok t := by
       simp only [Arr.reshape, Arr.new]
       rw [if_pos (by rw [hFl]; simp [List.prod_append, hP'p])]
